@@ -1,6 +1,7 @@
 import EgVerif.Proofs.Pipeline
 import EgVerif.Gen.FactsC02
 import EgVerif.Proofs.PipelineIR
+import EgVerif.Proofs.PipelineLands
 /-!
 # C02 — the pipeline executes filters in flow order with forward-only jumpIf and END
 
@@ -587,6 +588,100 @@ example : gfHandle (fun _ => "r1") (mkPipe okSpec) ⟨[("v", "K")], [⟨"END", "
 
 /-- a spec without a flow: one node per filter in spec order -/
 example : (handle (fun _ => "") (mkPipe ⟨[("v", "K"), ("a", "K")], []⟩)).2.map (fun s => s.filter) = ["v", "a"] := by
+  decide
+
+/-! ### Audit repair (notes/AUDIT.md, C02 item 12): where a jump lands, declaratively
+
+Until now "a non-empty result jumps to exactly the node named by `jumpIf`, skipping every node in
+between; `""` runs the very next node" was only true *inside* the definition of the reference machine
+`Spec.run` (through `run_refines_ref`). The two theorems below state it about `doHandle` itself, for
+**every** flow — validated or not — and every assignment of results. Proof by recursion on the loop:
+`Proofs/PipelineLands.lean`. -/
+
+/-- **Where control goes after each filter.** For consecutive invocations `new[k]`, `new[k+1]` of one flow:
+* the first invocation of the flow is node 0;
+* if `new[k]` returned `""`, the next invocation is the **next flow node** (`idx + 1`);
+* if it returned `r ≠ ""`, then `jumpIf` of its node maps `r` to a real target `t` (not `""`, not `END`),
+  the next invocation is recorded under the name `t`, lies strictly later, and **no node in between is
+  named `t`** — it is the first later node named `t`; with `forward_only` (indices strictly increase
+  along `new`) none of the nodes in between runs. -/
+theorem jump_lands_on_target (kind : String → String) (res : Nat → String) (flow : List Node)
+    (stats : List Stat) :
+    ∃ new, (doHandle kind res flow stats).2.1 = stats ++ new ∧
+      (∀ h : 0 < new.length, new[0].idx = 0) ∧
+      ∀ k (hk : k + 1 < new.length), ∃ n, flow[new[k].idx]? = some n ∧
+        (new[k].result = "" → new[k + 1].idx = new[k].idx + 1) ∧
+        (new[k].result ≠ "" → ∃ t, n.jumpIf.lookup new[k].result = some t ∧ t ≠ "" ∧ t ≠ END ∧
+          new[k + 1].name = t ∧ new[k].idx < new[k + 1].idx ∧
+          ∀ j, new[k].idx < j → j < new[k + 1].idx → ∀ m, flow[j]? = some m → m.name ≠ t) := by
+  obtain ⟨new, heq, hfirst, hl⟩ := doHandle_lands kind res flow stats
+  refine ⟨new, heq, ?_, ?_⟩
+  · intro h
+    cases new with
+    | nil => simp at h
+    | cons s tl => exact hfirst.2.1 rfl
+  · intro k hk
+    obtain ⟨n, hn, h1, h2, h3⟩ := lands_get hl k (by omega)
+    have hdrop : new.drop (k + 1) = new[k + 1] :: new.drop (k + 2) := List.drop_eq_getElem_cons hk
+    refine ⟨n, hn, ?_, ?_⟩
+    · intro hr
+      have := h1 hr
+      rw [hdrop] at this
+      exact this.2.1 rfl
+    · intro hr
+      have hne : new.drop (k + 1) ≠ [] := by rw [hdrop]; exact List.cons_ne_nil _ _
+      have hnot : ¬((n.jumpIf.lookup new[k].result).getD "" = "" ∨
+          (n.jumpIf.lookup new[k].result).getD "" = END) := fun h => hne (h3 hr h)
+      cases hlk : n.jumpIf.lookup new[k].result with
+      | none => simp [hlk] at hnot
+      | some t =>
+        simp only [hlk, Option.getD_some, not_or] at hnot
+        have hf := h2 t hr hlk hnot.1 hnot.2
+        rw [hdrop] at hf
+        obtain ⟨hle, _, hnm⟩ := hf
+        obtain ⟨hname, hbetween⟩ := hnm hnot.1
+        exact ⟨t, rfl, hnot.1, hnot.2, hname, by omega, fun j hj hlt m hm => hbetween j (by omega) hlt m hm⟩
+
+/-- **Why a flow stops where it stops.** The last invocation of a flow is followed by nothing only because
+the flow is over or an `END` node comes next (result `""`), because its result is unmapped or mapped to
+`END` (`nothing_after_end`), or — impossible on a validated flow, where every target occurs later — because
+no later node carries the target's name. In particular a taken jump whose target exists later *does* run it. -/
+theorem last_invocation_explained (kind : String → String) (res : Nat → String) (flow : List Node)
+    (stats : List Stat) :
+    ∃ new, (doHandle kind res flow stats).2.1 = stats ++ new ∧
+      (new = [] → ∀ n, flow[0]? = some n → n.filter = END) ∧
+      ∀ k (hk : k + 1 = new.length), ∃ n, flow[new[k].idx]? = some n ∧
+        (new[k].result = "" → ∀ m, flow[new[k].idx + 1]? = some m → m.filter = END) ∧
+        (∀ t, new[k].result ≠ "" → n.jumpIf.lookup new[k].result = some t → t ≠ "" → t ≠ END →
+          ∀ j, new[k].idx < j → ∀ m, flow[j]? = some m → m.name ≠ t) := by
+  obtain ⟨new, heq, hfirst, hl⟩ := doHandle_lands kind res flow stats
+  refine ⟨new, heq, ?_, ?_⟩
+  · intro h; subst h; exact hfirst.1 rfl
+  · intro k hk
+    obtain ⟨n, hn, h1, h2, _⟩ := lands_get hl k (by omega)
+    have hdrop : new.drop (k + 1) = [] := List.drop_eq_nil_of_le (by omega)
+    rw [hdrop] at h1 h2
+    refine ⟨n, hn, fun hr => (h1 hr).1 rfl, fun t hr hlk ht hE j hj m hm => ?_⟩
+    exact (h2 t hr hlk ht hE).2 ht j (by omega) m hm
+
+/-- Non-vacuity (`okSpec`): `v` returns `r2` ↦ `px`: the next invocation is node 3, named `px`; nodes 1
+(`a`) and 2 (`END`) in between are not named `px` and do not run; `px` returns `""` ↦ node 4 runs next. -/
+example : (doHandle (kindOf okSpec.filters) (fun k => if k = 0 then "r2" else "") (effFlow okSpec) []).2.1.map
+    (fun s => (s.idx, s.name, s.result)) = [(0, "v", "r2"), (3, "px", ""), (4, "again", "")] ∧
+    ((effFlow okSpec)[0]?.map (fun n => n.jumpIf.lookup "r2")) = some (some "px") ∧
+    ((effFlow okSpec).map (·.name)) = ["v", "a", "END", "px", "again"] := by decide
+
+/-- Non-vacuity of the `sawEnd = false` hypotheses (`open_flow_result_empty`,
+`gf_end_first_in_after_keeps_main`): a validated flow that runs to its end without meeting `END` — here
+through the jump over the `END` node — reports `sawEnd = false` and result `""`; and the same flow does
+report `sawEnd = true` when the `END` node is reached. -/
+example : validate kindsEx okSpec = true ∧
+    (doHandle (kindOf okSpec.filters) (fun k => if k = 0 then "r2" else "") (effFlow okSpec) []).2.2 = false ∧
+    (doHandle (kindOf okSpec.filters) (fun k => if k = 0 then "r2" else "") (effFlow okSpec) []).1 = "" ∧
+    (doHandle (kindOf okSpec.filters) (fun _ => "") (effFlow okSpec) []).2.2 = true := by decide
+example : (doHandle (mkPipe okSpec).kind (fun k => if k = 0 then "r2" else "") (mkPipe okSpec).flow []).2.2 = false ∧
+    gfHandle (fun k => if k = 0 then "r2" else "") (mkPipe okSpec) ⟨[], []⟩ ⟨[("v", "K")], [⟨"END", "", "", []⟩, ⟨"v", "", "", []⟩]⟩ =
+      ("", (doHandle (mkPipe okSpec).kind (fun k => if k = 0 then "r2" else "") (mkPipe okSpec).flow []).2.1, true) := by
   decide
 
 end EgVerif.C02
